@@ -317,9 +317,10 @@ class Run:
         return viol
 
     def evidence(self, viol, status):
-        nobl = len(self.obligations)
-        ndis = sum(1 for o in self.obligations if o['ok'])
-        # obligations whose function has a recorded (non-known) failure are not discharged
+        full = [o for o in self.obligations if o.get('kind') != 'bounded']
+        nobl = len(full)
+        ndis = sum(1 for o in full if o['ok'])
+        nb = [o for o in self.obligations if o.get('kind') == 'bounded'] + [b for b in self.extra.get('bounded', []) if isinstance(b, dict) and b.get('name') not in set(o['name'] for o in self.obligations)]
         ev = {
             'property_id': self.prop, 'tier': self.tier, 'seed': self.seed,
             'level': self.pc.get('level', 'proof'),
@@ -327,10 +328,12 @@ class Run:
                 'obligations': nobl, 'discharged': ndis,
                 'checker_cmd': getattr(self, 'checker_cmd', ''),
                 'trusted_base': self.cfg['trusted_base'] + self.pc.get('trusted_base', []),
-                'samples': [o for o in self.obligations[:6]] + self.samples,
+                'samples': [o for o in full[:6]] + self.samples,
+                'bounded_checks': len(nb), 'bounded_ok': sum(1 for o in nb if o.get('ok')),
+                'bounded_note': 'bounded stand-ins (Kani harnesses with an unwinding/size bound, native scenario tests) are listed under `bounded` and are NOT counted in obligations/discharged',
                 'obligation_unit': 'one per function or lemma: all verification conditions Verus generates for it (contract clauses, loop invariants, overflow/index/unwrap safety, termination), discharged by Z3; one per Kani harness',
-                'solver_ms_total': round(sum(o.get('ms', 0) for o in self.obligations), 1),
-                'by_engine': {e: sum(1 for o in self.obligations if o['engine'] == e) for e in set(o['engine'] for o in self.obligations)},
+                'solver_ms_total': round(sum(o.get('ms', 0) or 0 for o in full), 1),
+                'by_engine': {e: sum(1 for o in full if o['engine'] == e) for e in set(o['engine'] for o in full)},
                 'status': status,
                 'source_sha256': sha_tree(REPO),
                 'not_decided': self.pc.get('not_decided', []),
@@ -403,11 +406,14 @@ def main():
         print(f"VIOLATION property={a.prop} replay={path}" + ('' if have_input else ' no-failing-input-found'))
         sys.exit(1)
     run.evidence([], 'all obligations discharged')
-    nobl = len(run.obligations)
+    full = [o for o in run.obligations if o.get('kind') != 'bounded']
+    nobl = len(full)
     if nobl == 0:
         print(f"UNDECIDED property={a.prop} zero obligations generated")
         sys.exit(2)
-    print(f"OK property={a.prop} obligations={nobl} discharged={sum(1 for o in run.obligations if o['ok'])} wall={time.time()-run.t0:.1f}s")
+    nbd = [o for o in run.obligations if o.get('kind') == 'bounded']
+    print(f"OK property={a.prop} obligations={nobl} discharged={sum(1 for o in full if o['ok'])}"
+          + (f" bounded={sum(1 for o in nbd if o['ok'])}/{len(nbd)}" if nbd else '') + f" wall={time.time()-run.t0:.1f}s")
     sys.exit(0)
 
 
